@@ -378,6 +378,10 @@ func (db *RockDB) SRem(ts int64, key []byte, args ...[]byte) (int64, error) {
 	if err != nil {
 		return 0, err
 	}
+	if keyInfo.Expired {
+		// an expired collection is dead: nothing to remove
+		return 0, nil
+	}
 	table := keyInfo.Table
 	rk := keyInfo.VerKey
 	oldh := keyInfo.OldHeader
